@@ -128,15 +128,23 @@ class _Inliner:
 
     # -- eligibility -----------------------------------------------------------------
     def helper_for(self, call, stack):
-        if not isinstance(call.func, ast.Name):
+        own_method = False
+        if isinstance(call.func, ast.Attribute) and isinstance(call.func.value, ast.Name) and self.f.cls is not None and call.func.value.id == self.f.self_name and call.func.attr.startswith("_") and not call.func.attr.startswith("__"):
+            # self._helper(...): a private method of the same class
+            g = self.f.cls.methods.get(call.func.attr) if hasattr(self.f.cls, "methods") else None
+            if g is None or g.node.decorator_list:
+                return None
+            own_method = True
+        elif not isinstance(call.func, ast.Name):
             return None
-        ct = self.repo.resolve_call(self.f, self.f.module, call)
-        if ct.kind != "repo" or len(ct.funcs) != 1:
-            return None
-        g = ct.funcs[0]
+        else:
+            ct = self.repo.resolve_call(self.f, self.f.module, call)
+            if ct.kind != "repo" or len(ct.funcs) != 1:
+                return None
+            g = ct.funcs[0]
         nested = any(g is h for hs in getattr(self.f, "nested_all", {}).values() for h in hs)
         private = g.module is self.f.module and g.cls is None and g.name.startswith("_") and getattr(g, "parent", None) is None
-        if not (nested or private) or g is self.f or g.qname in stack:
+        if not (nested or private or own_method) or g is self.f or g.qname in stack:
             return None
         a = g.node.args
         if a.vararg or a.kwarg or g.node.decorator_list:
@@ -154,9 +162,15 @@ class _Inliner:
         a = g.node.args
         pos = [x.arg for x in a.posonlyargs + a.args]
         kwonly = [x.arg for x in a.kwonlyargs]
+        pre_bound = {}
+        if isinstance(call.func, ast.Attribute) and pos:
+            # self._helper(...): the helper's own first parameter is the caller's self
+            pre_bound[pos[0]] = ast.Name(id=call.func.value.id, ctx=ast.Load())
+            pos = pos[1:]
         if len(call.args) > len(pos):
             return None
         sub = dict(zip(pos, call.args))
+        sub.update(pre_bound)
         for k in call.keywords:
             if k.arg in sub or k.arg not in pos + kwonly:
                 return None
